@@ -908,3 +908,179 @@ pub fn cap_ops(case: &mut Case, n: usize, _full: bool) -> Vec<Vec<Op>> {
     seqs.push(vec![Op::ShrinkTo { v: 0, n: 0, typed: false }, Op::Clear { v: 0 }, Op::ShrinkToFit { v: 0, typed: false }, Op::TPush { v: 0, id: case.fresh_id() }]);
     seqs
 }
+
+// ---------------------------------------------------------------------------------------------
+// handles and views (C13)
+
+pub fn handle_ops(case: &mut Case, n: usize, full: bool) -> Vec<Vec<Op>> {
+    let mut ops = Vec::new();
+    for at in indices(n, 1) {
+        for how in [GetHow::Get, GetHow::At, GetHow::GetMut, GetHow::AtMut, GetHow::TGet, GetHow::TAt, GetHow::TGetMut, GetHow::TAtMut] {
+            ops.push(Op::Get { v: 0, at, how });
+        }
+        for via in ALL_VIEWS {
+            // only the panicking accessors are used with an out-of-range index
+            let oob_ok = matches!(via, ViewKind::ElemMutTyped | ViewKind::ElemMutBytes | ViewKind::TypedAtMut | ViewKind::TypedSlice | ViewKind::VecBytes
+                | ViewKind::ElemSwapWrapper | ViewKind::WrapperSwapElem | ViewKind::ElemSwapRaw);
+            if at >= n && !oob_ok {
+                continue;
+            }
+            let js: &[usize] = if full { &[0, 1, 2] } else { &[1] };
+            for j in js {
+                if *j != 1 && !matches!(via, ViewKind::ElemSwapElem | ViewKind::ElemSwapRemoveHandle) {
+                    continue;
+                }
+                ops.push(Op::ViewWrite { v: 0, at, via, id: case.fresh_id(), w: OTHER, j: *j });
+            }
+        }
+    }
+    ops.push(Op::Get { v: 0, at: usize::MAX, how: GetHow::Get });
+    ops.push(Op::Get { v: 0, at: usize::MAX, how: GetHow::GetMut });
+    ops.push(Op::Get { v: 0, at: usize::MAX, how: GetHow::TGet });
+    let mut seqs = singles(ops);
+    // removal handles before they are consumed: inspect / mutate / swap, then every fin
+    for at in indices(n, 0) {
+        if at >= n {
+            continue;
+        }
+        for pre in [Pre::Inspect, Pre::Mutate(case.fresh_id()), Pre::SwapWrapper(case.fresh_id()), Pre::SwapRaw(case.fresh_id())] {
+            for fin in [Fin::Drop, Fin::Downcast, Fin::Ref, Fin::Push(OTHER), Fin::Insert(OTHER, 1)] {
+                if case.cfg.fixed_cap.is_some() && matches!(fin, Fin::Push(_) | Fin::Insert(..)) && OTHER_LEN + 1 > case.cfg.fixed_cap.unwrap() {
+                    continue;
+                }
+                seqs.push(vec![Op::Remove { v: 0, at, sink: Sink::new(pre, fin) }]);
+                seqs.push(vec![Op::SwapRemove { v: 0, at, sink: Sink::new(pre, fin) }]);
+                if at + 1 == n {
+                    seqs.push(vec![Op::Pop { v: 0, sink: Sink::new(pre, fin) }]);
+                }
+            }
+        }
+        // a drained element before it is consumed
+        for pre in [Pre::Inspect, Pre::Mutate(case.fresh_id()), Pre::SwapWrapper(case.fresh_id()), Pre::SwapRaw(case.fresh_id())] {
+            seqs.push(vec![Op::Drain {
+                v: 0, lo: Bound::Included(at), hi: Bound::Unbounded, typed: false,
+                script: vec![Step { back: false, sink: Sink::new(pre, Fin::Downcast) }], end: End::Drop,
+            }]);
+        }
+        // two writes through different views, read back through all
+        for (a, b) in [(ViewKind::ElemMutBytes, ViewKind::TypedSlice), (ViewKind::VecBytes, ViewKind::ElemSwapRaw), (ViewKind::TIterMutItem, ViewKind::ElemMutTyped), (ViewKind::ElemSwapElem, ViewKind::VecBytes)] {
+            seqs.push(vec![
+                Op::ViewWrite { v: 0, at, via: a, id: case.fresh_id(), w: OTHER, j: 0 },
+                Op::ViewWrite { v: 0, at: (at + 1) % n, via: b, id: case.fresh_id(), w: OTHER, j: 2 },
+            ]);
+        }
+    }
+    seqs
+}
+
+// ---------------------------------------------------------------------------------------------
+// raw parts (C17)
+
+pub fn rawparts_ops(case: &mut Case, n: usize, full: bool) -> Vec<Vec<Op>> {
+    let mut seqs = vec![
+        vec![Op::RawRoundTrip { v: 0, times: 1 }],
+        vec![Op::RawRoundTrip { v: 0, times: 2 }],
+        vec![Op::RawRoundTrip { v: 0, times: 3 }],
+        vec![Op::RawRoundTrip { v: 0, times: 1 }, Op::RawRoundTrip { v: OTHER, times: 1 }, Op::CloneVec { v: 0, into: SPARE }, Op::RawRoundTrip { v: SPARE, times: 1 }],
+    ];
+    for op in elem_ops(case, n, full) {
+        seqs.push(vec![Op::RawRoundTrip { v: 0, times: 1 }, op]);
+    }
+    for seq in range_ops(case, n, false).into_iter().step_by(7) {
+        let mut s = vec![Op::RawRoundTrip { v: 0, times: 1 }];
+        s.extend(seq);
+        seqs.push(s);
+    }
+    if case.cfg.resizable {
+        seqs.push(vec![Op::RawRoundTrip { v: 0, times: 1 }, Op::Reserve { v: 0, n: 3, exact: true, typed: false }, Op::RawRoundTrip { v: 0, times: 1 }, Op::ShrinkToFit { v: 0, typed: false }, Op::RawRoundTrip { v: 0, times: 2 }]);
+    }
+    seqs
+}
+
+// ---------------------------------------------------------------------------------------------
+// forgotten handles and iterators (C07)
+
+pub fn forget_ops(case: &mut Case, n: usize, full: bool) -> Vec<Vec<Op>> {
+    let mut firsts: Vec<Op> = Vec::new();
+    if n > 0 {
+        firsts.push(Op::Pop { v: 0, sink: Sink::FORGET });
+        firsts.push(Op::Pop { v: 0, sink: Sink::new(Pre::Mutate(case.fresh_id()), Fin::Forget) });
+    }
+    for at in 0..n {
+        firsts.push(Op::Remove { v: 0, at, sink: Sink::FORGET });
+        firsts.push(Op::SwapRemove { v: 0, at, sink: Sink::FORGET });
+    }
+    let k_max = if full { 3 } else { 2 };
+    for a in 0..=n {
+        for b in a..=n {
+            let r = b - a;
+            // forget the iterator after f front / b back items (each item consumed by a sink or forgotten)
+            let mut scripts: Vec<Vec<Step>> = vec![vec![]];
+            for f in 0..=r.min(3) {
+                for bk in 0..=(r - f).min(3) {
+                    if f + bk == 0 {
+                        continue;
+                    }
+                    let mut st = Vec::new();
+                    for i in 0..f + bk {
+                        let back = i >= f;
+                        st.push(Step { back, sink: if i % 2 == 0 { Sink::DOWNCAST } else { Sink::DROP } });
+                    }
+                    scripts.push(st.clone());
+                    // forget a yielded item
+                    let mut st2 = st.clone();
+                    st2[0].sink = Sink::FORGET;
+                    scripts.push(st2);
+                    if full && st.len() > 1 {
+                        let mut st3 = st.clone();
+                        let last = st3.len() - 1;
+                        st3[last].sink = Sink::FORGET;
+                        scripts.push(st3);
+                    }
+                }
+            }
+            for script in scripts {
+                let has_forgotten_item = script.iter().any(|s| s.sink.fin == Fin::Forget);
+                for end in [End::Forget, End::Drop] {
+                    if end == End::Drop && !has_forgotten_item {
+                        continue;
+                    }
+                    for typed in [false, true] {
+                        firsts.push(Op::Drain { v: 0, lo: Bound::Included(a), hi: Bound::Excluded(b), typed, script: script.clone(), end });
+                    }
+                    for k in 0..=k_max {
+                        if let Some(c) = case.cfg.fixed_cap {
+                            if n - r + k > c {
+                                continue;
+                            }
+                        }
+                        let ids: Vec<_> = (0..k).map(|_| case.fresh_id()).collect();
+                        firsts.push(Op::Splice { v: 0, lo: Bound::Included(a), hi: Bound::Excluded(b), typed: false, repl: Repl::Wrappers(ids.clone()), script: script.clone(), end });
+                        if k == 1 {
+                            firsts.push(Op::Splice { v: 0, lo: Bound::Included(a), hi: Bound::Excluded(b), typed: true, repl: Repl::Wrappers(ids.clone()), script: script.clone(), end });
+                            firsts.push(Op::Splice { v: 0, lo: Bound::Included(a), hi: Bound::Excluded(b), typed: false, repl: Repl::Raws(ids), script: script.clone(), end });
+                        }
+                    }
+                }
+            }
+        }
+    }
+    // followed by further use of the vector
+    let mut seqs = Vec::new();
+    for (i, f) in firsts.into_iter().enumerate() {
+        let follow: Vec<Op> = match i % 4 {
+            0 => vec![Op::TPush { v: 0, id: case.fresh_id() }, Op::Pop { v: 0, sink: Sink::DOWNCAST }],
+            1 => vec![Op::Push { v: 0, src: Src::Raw(case.fresh_id()) }, Op::Iter { v: 0, how: IterHow::Iter, rev: false }, Op::Clear { v: 0 }],
+            2 => vec![Op::Insert { v: 0, at: 0, src: Src::Remove(OTHER, 0) }, Op::Drain { v: 0, lo: Bound::Unbounded, hi: Bound::Unbounded, typed: false, script: vec![], end: End::Drop }],
+            _ => vec![Op::Remove { v: OTHER, at: 0, sink: Sink::new(Pre::None, Fin::Push(0)) }, Op::TPop { v: 0 }],
+        };
+        let mut s = vec![f];
+        if case.cfg.fixed_cap.is_none() {
+            s.extend(follow);
+        } else {
+            s.push(Op::Iter { v: 0, how: IterHow::TIter, rev: true });
+        }
+        seqs.push(s);
+    }
+    seqs
+}
